@@ -232,10 +232,16 @@ func ExecA4(c A4Case) (res core.Result) {
 			}
 		}
 		var err error
-		var ifInfo bool
+		var probed, ifInfo bool
 		for try := 0; try < 8; try++ {
+			// a port nobody else uses right now (the server's sockets allow address reuse, so a
+			// clash with another process would not show as an error)
 			port := 20000 + int(listenPort.Add(1)*7919%40000)
-			cap4, ifInfo, err = server.NewListening4(&net.UDPAddr{IP: ip, Port: port, Zone: zone}, hs)
+			if tmp, e := net.ListenUDP("udp4", &net.UDPAddr{IP: net.IPv4(127, 0, 0, 1)}); e == nil {
+				port = tmp.LocalAddr().(*net.UDPAddr).Port
+				tmp.Close()
+			}
+			cap4, probed, ifInfo, err = server.NewListening4(&net.UDPAddr{IP: ip, Port: port, Zone: zone}, hs)
 			if err == nil {
 				break
 			}
@@ -245,7 +251,8 @@ func ExecA4(c A4Case) (res core.Result) {
 			res.Skipped = "cannot-listen"
 			return
 		}
-		if zone == "" && (c.ListenIP == "own" || c.ListenIP == "127.0.0.1") && !ifInfo {
+		// judged only when a datagram was actually read back from the socket
+		if zone == "" && probed && !ifInfo {
 			res.Viol = core.Violate("C15/unbound-listener-without-interface-information", "listen address %v (no zone): the socket does not report the interface a datagram arrived on, so a reply that must leave on it cannot", ip)
 			return
 		}
